@@ -24,6 +24,10 @@ def run_worker(check_id, shard_index, shard, tier, seed, workroot, timeout, extr
         e.update({k: str(v) for k, v in extra_env.items()})
     e['PYTHONPATH'] = os.pathsep.join([env.VERIF, env.DEPS, env.REPO])
     e['PYTHONDONTWRITEBYTECODE'] = '1'
+    if extra_env and extra_env.get('VERIF_WRITE_BYTECODE'):
+        # the way most programs run: Python writes bytecode files (kept out of the source trees, under the shard's work directory)
+        e.pop('PYTHONDONTWRITEBYTECODE')
+        e['PYTHONPYCACHEPREFIX'] = os.path.join(wd, 'pycache')
     t0 = time.time()
     try:
         p = subprocess.run([env.PY, '-W', 'ignore::SyntaxWarning', '-X', 'faulthandler', '-m', 'vf.worker', fin, fout],
